@@ -13,6 +13,7 @@ The generator never decides anything - it only produces values from the schema v
 """
 from __future__ import annotations
 
+import enum
 import importlib
 import inspect
 from dataclasses import dataclass, field
@@ -255,6 +256,8 @@ class Gen:
         self.rng = rng
         self.index = index or xo.oracle().index
         self.setter_rejects: set[str] = set()       # '<Class>.<member>': typed setter refused a schema-conformant value
+        self.setget_mismatches: list = []           # (DeclClass.member, value set, value read back): a scalar that was set reads differently
+        self.setget_checked = 0
         self.strategy_use: dict[str, int] = {}
         self._registry_pm = None
         self._handles = 0
@@ -369,6 +372,12 @@ class Gen:
     def _assign(self, obj, cls, name, prop, value):
         try:
             setattr(obj, name, value)
+            if value is not None and isinstance(value, (bool, int, float, str, Decimal, enum.Enum)):
+                # a present value is what the member reads, also when it is falsy (0, False, '') and an implied value exists
+                self.setget_checked += 1
+                got = getattr(obj, name)
+                if got is not value and not (type(got) is type(value) and got == value):
+                    self.setget_mismatches.append((f'{declaring_class(cls, name)}.{name}', repr(value), repr(got)))
         except Exception as ex:  # noqa: BLE001
             if isinstance(value, list):
                 self.setter_rejects.add(f'{declaring_class(cls, name)}.{name}: {type(ex).__name__}')
